@@ -763,7 +763,7 @@ func issueNestedQueryCode() []byte {
 	return prog(func(a *asm) {
 		l := a.label()
 		a.op(evm.CALLDATASIZE).pushLabel(l).op(evm.JUMPI).pushU(1).op(evm.ISSUE, evm.STOP)
-		a.dest(l).pushU(32).pushU(1 << 24).pushU(0).pushU(0).pushU(0).pushAddr(ghostAddr).op(evm.GAS, evm.CALLCODE, evm.STOP)
+		a.dest(l).pushU(32).pushU(1<<24).pushU(0).pushU(0).pushU(0).pushAddr(ghostAddr).op(evm.GAS, evm.CALLCODE, evm.STOP)
 	})
 }
 
